@@ -47,8 +47,8 @@ func init() {
 		id := id
 		register(&Spec{
 			ID: id, World: "SIG",
-			New: func() dsim.World { return &churnWorld{prop: id} },
-			Cfg: defaultCfg,
+			New:        func() dsim.World { return &churnWorld{prop: id} },
+			Cfg:        defaultCfg,
 			Real:       []string{"signaling/rpc/server.Server.Listen and .Session (peer trackers, session trackers, replacement, cleanup)"},
 			Stub:       []string{"scripted raw Listen/Session streams in place of clients", "srpc transport replaced by simulator-owned message streams", "stream identity callback"},
 			FaultKinds: []string{"fault:stream-reset", "fault:clock-jump", "fault:replace-listen", "fault:replace-session"},
